@@ -8,8 +8,14 @@
 (*   root   manifest.root      MkdirAll(Join(out, root)) unless NoRootDir; *)
 (*                             also the fallback sidecar directory          *)
 (*   dir    dir item rel_path  MkdirAll(Join(base, rel))                   *)
-(*   file   file item rel_path / FileBegin.rel_path                        *)
+(*   file   file item rel_path (and the FileBegin record repeating it)     *)
 (*                             MkdirAll(parent), OpenFile, Truncate         *)
+(*   begin  FileBegin.rel_path on its own: the manifest is benign, the     *)
+(*          record carries the key and size of a listed file and another   *)
+(*          path; same sinks as "file".  The receiver opens only paths the *)
+(*          manifest lists, so every such value is refused - unless the    *)
+(*          record is matched to its item by key alone (BeginByKey = TRUE, *)
+(*          a negative control) while the path still comes from the wire.  *)
 (*   id     item.id            Join(base, ".thruflux_resumedata", id+ext)  *)
 (*                             MkdirAll, WriteFile, Rename, Remove (Resume)*)
 (*   offer  root name of the signaling manifest offer (internal/app        *)
@@ -23,14 +29,14 @@
 (***************************************************************************)
 EXTENDS Integers, Sequences, FiniteSets, TLC, Json
 
-CONSTANTS MaxLen, GuardAllFields
+CONSTANTS MaxLen, GuardAllFields, BeginByKey
 
 \* segment classes: n = normal name, dd = "..", d = ".", e = "" (doubled separator),
 \* inner = name containing ".." ("a..b"), bs = "c\..\d" (backslash-separated traversal in one segment),
 \* tdd = "..." (three dots: a normal name), long = a name of more than 1024 bytes (over the rel_path limit; behaves
 \* like a normal name for Join / Clean - the guard must still reject the path for its ".." segments or its length)
 Seg == {"n", "dd", "d", "e", "inner", "bs", "tdd", "long"}
-Fields == {"root", "dir", "file", "id", "offer"}
+Fields == {"root", "dir", "file", "id", "offer", "begin"}
 
 VARIABLES field, segs, abs, noRoot, resume, phase
 vars == <<field, segs, abs, noRoot, resume, phase>>
@@ -71,6 +77,7 @@ Rejected ==
     [] field = "root" -> GuardAllFields /\ ~(ValidName(segs, abs) \/ \A i \in 1..Len(segs) : segs[i] = "e")   \* "", "/" join to the output directory itself
     [] field = "id"   -> GuardAllFields /\ ~ValidName(segs, abs)
     [] field = "offer" -> GuardAllFields /\ ~(ValidName(segs, abs) \/ \A i \in 1..Len(segs) : segs[i] = "e")
+    [] field = "begin" -> ~BeginByKey     \* never the path of a listed file (the driver spells the values accordingly)
 
 \* the path the sink touches
 Target ==
@@ -79,6 +86,7 @@ Target ==
     [] field = "root" -> JoinClean(Out, segs)                       \* MkdirAll(rootedDir) / fallback sidecar dir
     [] field = "id"   -> JoinClean(Base(Benign) \o <<"RESUME">>, segs)   \* sidecar file named after the id
     [] field = "offer" -> JoinClean(Out, segs) \o <<"RESUME">>            \* resume-data directory looked up / cleared
+    [] field = "begin" -> JoinClean(Base(Benign), segs)
 
 \* is the sink reached at all in this mode?
 Reached ==
